@@ -9,6 +9,7 @@ import J5V.Props.C01
 #print axioms J5V.Props.C01.C01_roundtrip_partial
 #print axioms J5V.Props.C01.C01_encode_succeeds_partial
 #print axioms J5V.Props.C01.C01_any_j5_partial
+#print axioms J5V.Props.C01.C01_own_output_is_chunk
 #print axioms J5V.Props.C01.C01_src_inverse_pair_coverage
 #print axioms J5V.Props.C01.C01_src_timestamp_layouts
 #print axioms J5V.Props.C01.C01_src_extractor_ok
